@@ -128,9 +128,13 @@ def build_system(fmt, sizes, atoms, bonds, opts):
             keys = range(1000, 1000 + 3 * n, 3)
         else:                       # decreasing node keys: the order of a molecule is its insertion order
             keys = range(n - 1, -1, -1)
-        for key in keys:
-            g += 1
-            a = atoms[g - 1]
+        # 'perm' (PDB only): the nodes are INSERTED in reverse order while the atom ids still increase in the intended order;
+        # the PDB writer lists atoms by atom id, so the written order is the intended one and every CONECT serial must follow it
+        perm = opts.get('atomid') == 'perm' and fmt == 'pdb'
+        plan = [(g + t + 1, key) for t, key in enumerate(keys)]
+        g += n
+        for gg, key in (reversed(plan) if perm else plan):
+            a = atoms[gg - 1]
             d = a.get('d', (0.0, 0.0, 0.0))
             attrs = {'atomname': a['name'], 'resname': a['resname'], 'resid': a['resid'],
                      'position': np.array([(a['x'] + d[0]) / scale, (a['y'] + d[1]) / scale, (a['z'] + d[2]) / scale])}
@@ -141,11 +145,11 @@ def build_system(fmt, sizes, atoms, bonds, opts):
             if a['elem'] != '' or not opts.get('omit_empty'):
                 attrs['element'] = a['elem']
             if opts.get('atomid'):
-                attrs['atomid'] = 7 + 2 * g
+                attrs['atomid'] = 7 + 2 * gg
             if opts.get('vel'):
                 attrs['velocity'] = np.array([0.1, -0.2, 0.3])
             mol.add_node(key, **attrs)
-            keyof[g] = key
+            keyof[gg] = key
         system.add_molecule(mol)
     cum = [0]
     for n in sizes:
@@ -195,6 +199,24 @@ def _write(fmt, system, opts, path):
         return fh.read()
 
 
+def _primer_gro(gro, precision, work):
+    import numpy as np
+    from vermouth.system import System
+    from vermouth.molecule import Molecule
+    mol = Molecule()
+    for k in range(3):
+        mol.add_node(k, atomname='C%d' % k, resname='PRM', resid=1 + k, position=np.array([0.125 * k, -1.5, 2.25]))
+    system = System()
+    system.add_molecule(mol)
+    path = os.path.join(work, 'primer_%d.gro' % os.getpid())
+    gro.write_gro(system, path, precision=precision, defer_writing=False)
+    back = gro.read_gro(path, exclude=())
+    os.remove(path)
+    got = [tuple(round(float(x), 3) for x in back.nodes[n]['position']) for n in back.nodes]
+    if got != [(0.0, -1.5, 2.25), (0.125, -1.5, 2.25), (0.25, -1.5, 2.25)]:
+        raise ValueError('primer file read back as %r' % (got,))
+
+
 def write_and_read(fmt, system, opts, work):
     """-> (text, molecules read back | None, error text)."""
     import vermouth
@@ -217,6 +239,13 @@ def write_and_read(fmt, system, opts, work):
             return text, None, 'reader raised ' + repr(exc)[:200]
     else:
         from vermouth.gmx import gro
+        if opts.get('primer'):
+            # history: the same process first reads a GRO file written with ANOTHER coordinate column width (write_gro precision = width - 1; values that fit);
+            # nothing of that read may stick to the reader
+            try:
+                _primer_gro(gro, opts['primer'], work)
+            except Exception as exc:
+                return text, None, 'reader raised on a file written by write_gro(precision=%d): %r' % (opts['primer'], exc)
         try:
             if opts.get('reader') == 'processor':
                 from vermouth.processors.gro_reader import GROInput
@@ -320,9 +349,9 @@ def precision_check(fmt, atoms, mols):
 
 # ------------------------------------------------------------------------------------------- one system
 def _opts(rng, fmt):
-    return {'keys': rng.choice(['seq', 'offset', 'rev']), 'atomid': rng.random() < 0.3, 'omit_empty': rng.random() < 0.5,
+    return {'keys': rng.choice(['seq', 'offset', 'rev']), 'atomid': rng.choice([False, False, 'inc', 'perm']), 'omit_empty': rng.random() < 0.5,
             'writer': rng.choice(['string', 'file']), 'reader': rng.choice(['func', 'processor']),
-            'vel': fmt == 'gro' and rng.random() < 0.3}
+            'vel': fmt == 'gro' and rng.random() < 0.3, 'primer': rng.choice([0, 0, 8, 9, 11]) if fmt == 'gro' else 0}
 
 
 def filler_bonds(rng, sizes, bonds):
